@@ -29,7 +29,7 @@ BOUNDS = {
 }
 ASSUMPTIONS = [
   "certificate O1, stage 1: r_i = max(|g_i| - 32*eps32*(sum of magnitudes of the terms added into g_i), 0) is the part of the float64 gradient that float32 rounding cannot explain; pass if ||r||/(meaninertia*nv) <= K*tol or r'M^-1 r/2/(meaninertia*nv) <= K*tol (the solver's own two stopping quantities), K=20, tol = the tolerance MJWarp uses (max(opt.tolerance,1e-6))",
-  "certificate O1, stage 2 (only if stage 1 does not pass): an independent float64 damped-Newton minimisation of the same cost (mc/refs/cost.py:refine) gives q*; required cost(qacc)-cost(q*) <= K*tol/scale + 8*eps32*(sum of |cost terms|): the solver measures improvement as a difference of float32 costs and cannot resolve less (measured max on the unchanged tree: 2.6 eps32)",
+  "certificate O1, stage 2 (only if stage 1 does not pass): an independent float64 damped-Newton minimisation of the same cost (mc/refs/cost.py:refine) gives q*; required cost(qacc)-cost(q*) <= K*tol/scale + 16*eps32*(sum of |cost terms|): the solver measures improvement as a difference of float32 costs (sums of ~20 rounded terms) and cannot resolve less (measured max on the unchanged tree: 8.1 eps32)",
   "CG only: if stage 2 fails but MuJoCo's own CG (float64, tolerance 1e-8) is at least as far from the optimum of its own problem, the world passes (CG stops on per-iteration improvement, which does not bound the remaining gap on ill-conditioned cones); counted in certificate_cg_as_converged_as_mujoco",
   "if the ITERATIONS overflow bit is set the certificate is replaced by cost(qacc) <= cost(MuJoCo's qacc, same solver and iteration limit) + the same allowance (skipped if MuJoCo assembled a different number of rows)",
   "O2 allows 2e-3*(1+max|qacc_ref|) + sqrt(2*allowance*(M^-1)_ii) per dof (what a point within the allowed suboptimality may deviate by strong convexity) and is applied only where MuJoCo's rows have the same count as MJWarp's, MuJoCo raised no warning and MuJoCo's own qacc passes the certificate on MuJoCo's own problem",
@@ -131,7 +131,7 @@ def bad_warmstart(nv, w):
 # ------------------------------------------------------------------------------------------- checks
 
 
-def check_world(c, pre, mjm, m, d, w, overflow, mjd, tagkey, mjd_any=None):
+def check_world(c, pre, mjm, m, d, w, overflow, mjd, tagkey, mjd_any=None, mjd_raw=None):
   """O1/O3 (+O2 if mjd usable) for one world. Returns (active, info)."""
   nefc, rows = util.efc_dense(m, d, w)
   P = cost.problem_from_mjw(mjm, m, d, w, rows=rows)
@@ -147,9 +147,10 @@ def check_world(c, pre, mjm, m, d, w, overflow, mjd, tagkey, mjd_any=None):
   # bound on the remaining improvement)
   Gx, Sx = P.certificate_excess(ev, 32 * EPS32)
   # allowed true suboptimality (unscaled): K*tol/scale plus the float32 resolution of the cost itself -- the solver measures
-  # improvement as a difference of float32 costs.  Measured on the unchanged tree: gap <= 2.6 eps32 * sum|cost terms|.
+  # improvement as a difference of float32 costs, each a sum of nv+nefc (~20) rounded terms, i.e. uncertain by up to ~n/2 eps32
+  # relative.  Measured on the unchanged tree (seeds 0-3): gap <= 8.1 eps32 * sum|cost terms| (CG stuck until the iteration cap).
   cmag = abs(ev["gauss"]) + (float(np.sum(np.abs(P.rows(ev["jar"])[2]))) if nefc else 0.0)
-  allow = K * tol / P.scale() + 8 * EPS32 * cmag
+  allow = K * tol / P.scale() + 16 * EPS32 * cmag
   gap = 0.0
   if not (Gx <= K * tol or Sx <= K * tol):
     # stage 2: independent float64 minimisation of the same problem; cost(qacc) - cost(q*) is a lower bound of the true gap
@@ -158,15 +159,15 @@ def check_world(c, pre, mjm, m, d, w, overflow, mjd, tagkey, mjd_any=None):
     if gap > allow:
       if iter_bit:
         PATHS["itercap"] += 1
-        if mjd_any is not None and mjd_any.nefc == nefc:
-          cm = P.evaluate(mjd_any.qacc)["cost"]
+        if mjd_raw is not None and mjd_raw.nefc == nefc:
+          cm = P.evaluate(mjd_raw.qacc)["cost"]
           c.true(
             f"{pre}cost vs MuJoCo (iteration limit hit)",
             ev["cost"] <= cm + allow,
             f"iteration limit hit (niter {int(d.solver_niter.numpy()[w])}): cost {ev['cost']:.9g} > cost at MuJoCo's qacc {cm:.9g} (same solver, same limit); optimum {cstar:.9g}",
             vkey=f"certificate_itercap:{tagkey}",
           )
-      elif tagkey.startswith("cg:") and mjd_any is not None and _mj_gap(mjm, mjd_any) >= gap:
+      elif tagkey.startswith("cg:") and mjd_raw is not None and mjd_raw.nefc == nefc and _mj_gap(mjm, mjd_raw) >= gap:
         # CG stops on per-iteration improvement; on ill-conditioned cones that is not a bound on the remaining gap.  MuJoCo's
         # own CG (same algorithm and stopping rule, float64, stricter tolerance) is no closer to its optimum here, so the
         # property's "to within the solver tolerance" cannot mean more than this for CG.
@@ -176,7 +177,7 @@ def check_world(c, pre, mjm, m, d, w, overflow, mjd, tagkey, mjd_any=None):
         c.fail(
           f"certificate:{tagkey}",
           f"{pre}qacc is not the optimum of MJWarp's own problem: cost {ev['cost']:.9g} vs float64 optimum {cstar:.9g} (gap {gap:.3g}, allowed {allow:.3g} = "
-          f"{K:g}*tol/scale + 8 eps32*{cmag:.3g}); scaled gradient {ev['gradient']:.3g}; max|qacc-q*| {np.max(np.abs(dq)):.3g} at dof {int(np.argmax(np.abs(dq)))}; "
+          f"{K:g}*tol/scale + 16 eps32*{cmag:.3g}); scaled gradient {ev['gradient']:.3g}; max|qacc-q*| {np.max(np.abs(dq)):.3g} at dof {int(np.argmax(np.abs(dq)))}; "
           f"niter {int(d.solver_niter.numpy()[w])}, nefc {nefc}",
         )
     else:
@@ -312,7 +313,7 @@ def execute(scn):
             mjd, okref = refs[w]
             usable = okref and int(d.nefc.numpy()[w]) == mjd.nefc and not (overflow[w] & OVERFLOW_ITER)
             nref += usable
-            act, inf = check_world(c, pre, mjm, m, d, w, overflow, mjd if usable else None, tagkey, mjd_any=mjd if okref else None)
+            act, inf = check_world(c, pre, mjm, m, d, w, overflow, mjd if usable else None, tagkey, mjd_any=mjd if okref else None, mjd_raw=mjd if util.mj_warnings(mjd) == 0 and np.all(np.isfinite(mjd.qacc)) else None)
             nactive += act
             worstG, worstS = max(worstG, inf.get("G", 0.0)), max(worstS, inf.get("S", 0.0))
   mjm.opt.disableflags = base_flags
